@@ -9,7 +9,8 @@ RULE = ('Exhaustive window: every start date from 2019-12-01 to 2024-03-31 (leap
         'ranges 1990-2060 up to 3 years with random times of day (end time-of-day >= start\'s) and the end<start '
         'rejection. The real DailyBusinessDaySimulationEngine is iterated and its event list compared with an '
         'independent datetime-only calendar; strict monotonicity asserted pairwise. Non-trivial: a range that '
-        'contains both business days and weekend days; distinct = (start, length).')
+        'contains both business days and weekend days; distinct = (start, length).'
+        ' Per range also: a second pass over the same engine, a full pass after an abandoned partial pass, list(engine) read afterwards, and two simultaneous iterators (zip(engine, islice(engine, 1, None))); random starts carry seconds and microseconds.')
 ASSUMPTIONS = ['UTC timestamps; end time-of-day not before the start\'s (the quantifier)']
 EXHAUSTIVE = {'thorough': 'all (start date in 2019-12-01..2024-03-31) x (start 00:00|14:30) x (length 0..45 d) x 4 flag combinations'}
 
